@@ -35,7 +35,11 @@ IsSU(t) == t[1] \in {"struct", "union"}
 KeyStr(k) == k[1] \o " " \o k[2]             \* <<"struct","s1">> -> "struct s1"
 
 EmptyFn == [x \in {} |-> 0]
-Put(f, k, v) == [x \in (DOMAIN f) \cup {k} |-> IF x = k THEN v ELSE f[x]]
+\* TLC keeps [i \in 1..n |-> e] as an unevaluated closure (re-evaluated at every application, and
+\* holding on to the environments it was built in); concatenation turns it into a plain tuple
+Tup(f) == f \o <<>>
+Fn(f) == f @@ EmptyFn                     \* the same for functions over other domains
+Put(f, k, v) == (k :> v) @@ f
 
 (* ------------------------------------------------------------------ string order (ASCII) *)
 Chars == << " ", "$", "(", ")", "*", ",", "-", ".", "/",
@@ -96,7 +100,7 @@ Res(env, t) ==      \* replace typedef names by what they stand for
   CASE t[1] = "td"  -> env.td[t[2]]
     [] t[1] = "ptr" -> Ptr(Res(env, t[2]))
     [] t[1] = "arr" -> Arr(Res(env, t[2]), t[3])
-    [] t[1] = "fnp" -> FnP(Res(env, t[2]), [i \in DOMAIN t[3] |-> Res(env, t[3][i])], t[4])
+    [] t[1] = "fnp" -> FnP(Res(env, t[2]), Tup([i \in DOMAIN t[3] |-> Res(env, t[3][i])]), t[4])
     [] OTHER -> t
 
 RECURSIVE SUsOf(_)
@@ -123,7 +127,7 @@ EnumsOf(t) ==
 
 (* mentioning "struct s2" anywhere declares it (opaque) if it is new:
    cparser.py:_get_struct_union_enum_type -> self._declare(key, tp) *)
-Mention(su, keys) == [k \in (DOMAIN su) \cup keys |-> IF k \in DOMAIN su THEN su[k] ELSE OpaqueSU]
+Mention(su, keys) == Fn([k \in (DOMAIN su) \cup keys |-> IF k \in DOMAIN su THEN su[k] ELSE OpaqueSU])
 
 TagsOf(env) == {k[2] : k \in DOMAIN env.su}
 (* C has one tag namespace; cffi would accept "struct s1" and "union s1" side by side but
@@ -266,18 +270,18 @@ FieldsG(env, self, fs) ==
        ELSE PlainFieldG(env, self, fs[i])
   /\ \A i, j \in DOMAIN fs : i # j => fs[i][1] # fs[j][1]
   /\ KindOK(env, {self} \cup UNION {SUsOf(fs[i][2]) : i \in DOMAIN fs})
-ResFields(env, fs) == [i \in DOMAIN fs |-> <<fs[i][1], Res(env, fs[i][2]), fs[i][3]>>]
+ResFields(env, fs) == Tup([i \in DOMAIN fs |-> <<fs[i][1], Res(env, fs[i][2]), fs[i][3]>>])
 FieldSUs(fs) == UNION {SUsOf(fs[i][2]) : i \in DOMAIN fs}
 \* naming the anonymous aggregates of a field list: the k-th one gets "$(anon + k)"
 AnonIdx(fs, i) == Cardinality({j \in 1..i : IsAnon(fs[j][2])})
 AnonKey(env, fs, i) == <<fs[i][2][2], "$" \o ToString(env.anon + AnonIdx(fs, i))>>
-Lifted(env, fs) == [i \in DOMAIN fs |-> IF IsAnon(fs[i][2]) THEN <<fs[i][1], AnonKey(env, fs, i), fs[i][3]>> ELSE fs[i]]
+Lifted(env, fs) == Tup([i \in DOMAIN fs |-> IF IsAnon(fs[i][2]) THEN <<fs[i][1], AnonKey(env, fs, i), fs[i][3]>> ELSE fs[i]])
 WithAnons(env, su, fs) ==
   LET idx == {i \in DOMAIN fs : IsAnon(fs[i][2])}
       keys == {AnonKey(env, fs, i) : i \in idx}
       of(key) == CHOOSE i \in idx : AnonKey(env, fs, i) = key
-  IN [k \in (DOMAIN su) \cup keys |->
-        IF k \in keys THEN [complete |-> TRUE, fields |-> ResFields(env, fs[of(k)][2][3]), force |-> ""] ELSE su[k]]
+  IN Fn([k \in (DOMAIN su) \cup keys |->
+        IF k \in keys THEN [complete |-> TRUE, fields |-> ResFields(env, fs[of(k)][2][3]), force |-> ""] ELSE su[k]])
 NAnon(fs) == Cardinality({i \in DOMAIN fs : IsAnon(fs[i][2])})
 
 DeclTypedefAnonE(env, n, kind, fs) ==
@@ -392,7 +396,7 @@ Norm(env, t) ==
     [] t[1] = "file" -> <<"struct", "FILE">>
     [] t[1] = "ptr" -> Ptr(Norm(env, t[2]))
     [] t[1] = "arr" -> Arr(Norm(env, t[2]), t[3])
-    [] t[1] = "fnp" -> FnP(Norm(env, t[2]), [i \in DOMAIN t[3] |-> Norm(env, t[3][i])], t[4])
+    [] t[1] = "fnp" -> FnP(Norm(env, t[2]), Tup([i \in DOMAIN t[3] |-> Norm(env, t[3][i])]), t[4])
     [] OTHER -> t
 
 RECURSIVE NoAgg(_)
@@ -414,7 +418,7 @@ AggObs(env, key) ==
       shift(i) == IF fs[i][3] = Unk THEN Unk ELSE IF key[1] = "union" THEN 0 ELSE BitPos(env, fs, i) % 32
   IN [ name |-> AggName(env, key), kind |-> key[1], complete |-> s.complete,
        \* <<name, type, offset, bit shift, bit size>>
-       fields |-> [i \in 1..n |-> << fs[i][1], Norm(env, fs[i][2]), off(i), shift(i), fs[i][3] >>],
+       fields |-> Tup([i \in 1..n |-> << fs[i][1], Norm(env, fs[i][2]), off(i), shift(i), fs[i][3] >>]),
        size |-> SizeOf(env, key), align |-> AlignOf(env, key) ]
 
 EnumObs(env, tag) ==
@@ -471,11 +475,15 @@ Leaves(e) ==
   \cup {<<"enum", g>> : g \in DOMAIN e.en}
   \cup (IF "file" \in Feat THEN {File} ELSE {})
 
+LenBoundary == {1, 2, 127, 128, 130, 200, 255, 256, 1000, 65535, 65736}
 Cands(e) ==
   LET L == Leaves(e)
   IN  L \cup {Ptr(l) : l \in L \cup {Void}}
         \cup (IF "pp" \in Feat THEN {Ptr(Ptr(Prim("char")))} ELSE {})
         \cup (IF "arr" \in Feat THEN {Arr(Prim("int"), 3), Ptr(Arr(Prim("char"), 2))} ELSE {})
+        \* array lengths around the byte boundaries of the 4-byte length slot (low byte < / >= 0x80,
+        \* one, two, three significant bytes)
+        \cup (IF "biglen" \in Feat THEN {Arr(Prim("char"), n) : n \in LenBoundary} \cup {Ptr(Arr(Prim("char"), 200))} ELSE {})
         \cup (IF "fnp" \in Feat
               THEN {FnP(Prim("int"), <<a>>, FALSE) : a \in {l \in L : l[1] \in {"prim", "td"}} \cup {Ptr(l) : l \in {x \in L : IsSU(x) \/ x = File}}}
                    \cup {FnP(Void, <<>>, FALSE), FnP(Prim("int"), <<Prim("int"), Ptr(Prim("char"))>>, TRUE)}
@@ -511,7 +519,7 @@ EnumShapes ==
                    << <<"A", "B">>, <<"-9223372036854775808", "2147483648">> >>, << <<"A", "B">>, <<"9223372036854775808", "1">> >>}
         ELSE {})
 EnumNames(tag, ns) == [i \in DOMAIN ns |-> tag \o ns[i]]       \* e1A, e1B: unique per enum
-ConstVals == IF "bigconst" \in Feat THEN Boundary \cup {"7"} ELSE {"7", "-3"}
+ConstVals == IF "bigconst" \in Feat THEN Boundary \cup {"7"} ELSE IF "zero" \in Feat THEN {"7", "-3", "0"} ELSE {"7", "-3"}
 
 Log(name, args) == Len(hist) < MaxDecls /\ hist' = Append(hist, <<name, args>>)
 
